@@ -46,8 +46,8 @@ for m in sorted(glob.glob(os.path.join(HERE, "seeded", "*", "meta.json"))):
     name = os.path.basename(os.path.dirname(m))
     res = "; ".join("%s: %s / %s" % (c, "caught" if v["violations"] else "MISSED", "input" if v["with_failing_input"] else "-")
                     for c, v in d.get("checks", {}).items())
-    out.append("| %s | %s | %s | %s |" % (name, (d.get("summary") or "").replace("|", "/")[:220],
-                                          (d.get("needs") or "").replace("|", "/")[:200], res))
+    out.append("| %s | %s | %s | %s |" % (name, (d.get("summary") or "").replace("|", "/")[:150],
+                                          (d.get("needs") or "").replace("|", "/")[:120], res))
 out.append("")
 fa = os.path.join(HERE, "notes", "design", "false_alarms.md")
 if os.path.exists(fa):
